@@ -118,7 +118,7 @@ func propC04(c *Ctx, r *Report) {
 				// a stage split off from SyncBlock / DBlockSync after the reference tree is part of the pipeline
 				for _, on := range c.ownerNames(s.Caller) {
 					if on == "node.Pegnetd.SyncBlock" || on == "node.Pegnetd.DBlockSync" {
-						inPipeline = isNewHelper(s.Caller)
+						inPipeline = isNewHelper(s.Caller) || s.Caller.Parent() != nil // a later helper, or a closure of the pipeline function
 					}
 				}
 			}
